@@ -439,7 +439,7 @@ def warping_paths(s1, s2, psi_neg=True, keep_int_repr=False, **kwargs):
     """
     s = DTWSettings.for_dtw(s1, s2, **kwargs)
     if s.use_c:
-        return warping_paths_fast(s1, s2, psi_neg=psi_neg, **s.kwargs())
+        return warping_paths_fast(s1, s2, psi_neg=psi_neg, keep_int_repr=keep_int_repr, **s.kwargs())
     if np is None:
         raise NumpyException("Numpy is required for the warping_paths method")
     cost, result_fn, ival_fn = innerdistance.inner_dist_fns(s.inner_dist, use_ndim=s.use_ndim)
@@ -957,7 +957,7 @@ def warping_path(from_s, to_s, include_distance=False, use_ndim=False, **kwargs)
     """Compute warping path between two sequences."""
     s = DTWSettings(use_ndim=use_ndim, **{k: v for k, v in kwargs.items()
                                           if k not in ('psi_neg', 'keep_int_repr')})
-    if s.adj_penalty and not s.use_c and not kwargs.get('keep_int_repr', False):
+    if s.adj_penalty and not kwargs.get('keep_int_repr', False):
         # The penalty is needed to trace back the path and is only meaningful in the internal
         # representation of the warping paths matrix (see best_path).
         dist, paths = warping_paths(from_s, to_s, use_ndim=use_ndim, keep_int_repr=True, **kwargs)
